@@ -1091,6 +1091,7 @@ class Environments(collections.abc.Sequence, Sequence[Environment]):
                     return path_envs
                 if not is_equal and overwrite:
                     Path(path).unlink()
+                    self_envs = list(self) #the comparison above removed the environments it matched
                 if not is_equal and not overwrite:
                     raise CobaException("The Environments save file does not match the actual Environments and overwite is False.")
 
